@@ -55,8 +55,6 @@ Proof.
   pose proof (Z.div_mod (wrap64 n) 18446744073709551616 ltac:(lia)). lia.
 Qed.
 
-(* the literal threshold of times_ii is the double 2^63 - 1024 *)
-
 Ltac bsplit E := match type of E with
                  | (_ <? _) = true => apply Z.ltb_lt in E | (_ <? _) = false => apply Z.ltb_ge in E
                  | (_ <=? _) = true => apply Z.leb_le in E | (_ <=? _) = false => apply Z.leb_gt in E
@@ -160,37 +158,6 @@ Qed.
 Lemma hole_test a b : (b =? -1) && (a =? min_int64) = true <-> div_hole a b.
 Proof.
   unfold div_hole. rewrite andb_true_iff, !Z.eqb_eq. split; [intros [-> ->]; reflexivity|intros H; inversion H; split; reflexivity].
-Qed.
-
-(* ---------------------------------------------------------------- * : the integer product is verified by dividing it back *)
-Lemma times_int_is_exact a b n : in64 a = true -> in64 b = true -> times_ii a b = RInt n -> n = a * b.
-Proof.
-  intros Ha Hb. unfold times_ii. destruct (_ <? _)%float; [discriminate|].
-  destruct (Z.eqb_spec a 0) as [->|Ha0]; cbn [negb andb].
-  - intros H. inversion H. rewrite Z.mul_0_l. reflexivity.
-  - set (p := wrap64 (a * b)).
-    destruct (Z.eqb_spec (go_quot p a) b) as [Hq|Hq]; cbn [negb orb]; [|discriminate].
-    destruct ((a =? -1) && (b =? min_int64)) eqn:Ecorner; [discriminate|]. intros H; inversion H; subst n. clear H.
-    destruct (wrap64_cases (a * b)) as (k & Hk & Hr). fold p in Hk, Hr.
-    assert (Hp : in64 p = true) by (apply in64_iff; exact Hr).
-    assert (Hnh : ~ div_hole p a).
-    { intros Hh. unfold div_hole in Hh. inversion Hh as [[Hp' Ha']]. subst a.
-      rewrite Hp' in Hq. change (go_quot min_int64 (-1)) with min_int64 in Hq.
-      rewrite <- Hq in Ecorner. discriminate. }
-    rewrite (go_quot_exact p a Hp Ha Ha0 Hnh) in Hq.
-    pose proof (Z.quot_rem' p a) as Hqr. pose proof (Z.rem_bound_abs p a Ha0) as Hrb. rewrite Hq in Hqr.
-    apply in64_iff in Ha. consts.
-    assert (k = 0) by nia. subst k. lia.
-Qed.
-
-Lemma times_overflow_is_float a b : in64 a = true -> in64 b = true -> in64 (a * b) = false ->
-  times_ii a b = RFloat (i2f a * i2f b)%float.
-Proof.
-  intros Ha Hb Hc. destruct (times_ii a b) eqn:E; unfold times_ii in E;
-    repeat match type of E with (if ?c then _ else _) = _ => destruct c eqn:? end; try discriminate; try (inversion E; reflexivity).
-  exfalso. assert (Hn : times_ii a b = RInt (wrap64 (a * b))).
-  { unfold times_ii. rewrite Heqb0. cbv zeta. rewrite Heqb1. reflexivity. }
-  pose proof (times_int_is_exact a b _ Ha Hb Hn) as Heq. pose proof (wrap64_in64 (a * b)) as Hw. rewrite Heq in Hw. congruence.
 Qed.
 
 (* ---------------------------------------------------------------- / *)
@@ -334,7 +301,5 @@ Lemma dotdivide_trunc a b : b <> 0 -> dotdivide_ii a b = RInt (wrap64 (Z.quot a 
 Proof. intros Hb. unfold dotdivide_ii. destruct (Z.eqb_spec b 0); [contradiction|reflexivity]. Qed.
 Lemma dotdivide_zero_float a : dotdivide_ii a 0 = RFloat (i2f a / i2f 0)%float. Proof. reflexivity. Qed.
 
-(* the literal threshold of times_ii is the double 2^63 - 1024 *)
-Lemma times_threshold_value : bits_of_f times_threshold = float_of_int 9223372036854774784
-  /\ bits_of_f 0x1p+53%float = float_of_int (2 ^ 53) /\ bits_of_f 0x1p+63%float = float_of_int (2 ^ 63).
+Lemma float_literal_values : bits_of_f 0x1p+53%float = float_of_int (2 ^ 53) /\ bits_of_f 0x1p+63%float = float_of_int (2 ^ 63).
 Proof. vm_compute. repeat split. Qed.
